@@ -27,7 +27,7 @@ git checkout -q -- . && git clean -fdq -e target
 cd /verif
 git -C /repo apply $SD/patch.diff || { echo "PATCH-DOES-NOT-APPLY-TO-REPO"; exit 2; }
 ./check $PROP quick > /tmp/scratch/check_$NAME.log 2>&1; RC_CHECK=$?
-git -C /repo checkout -- .
+git -C /repo checkout -- . ; git -C /repo clean -fdq
 echo "== check $PROP rc=$RC_CHECK"
 grep -E "^(VIOLATION|KNOWN|OK|TOOL)" /tmp/scratch/check_$NAME.log | cut -c1-300
 echo "SUMMARY name=$NAME prop=$PROP suite=[$SUITE] demo_with=$RC_WITH demo_without=$RC_WITHOUT check_rc=$RC_CHECK"
